@@ -91,6 +91,9 @@ func genName(r *simrt.RNG) string {
 	if r.Intn(25) == 0 {
 		n = 0
 	}
+	if r.Intn(40) == 0 {
+		n = r.Pick(4094, 4095, 4096, 4097, 8192, r.Range(4000, 9000)) // header lines around the reader's buffer size
+	}
 	b := make([]byte, n)
 	for i := range b {
 		if r.Intn(3) == 0 {
@@ -107,6 +110,9 @@ func genDesc(r *simrt.RNG) string {
 		return ""
 	}
 	n := r.Pick(1, 2, 5, 20, 60)
+	if r.Intn(40) == 0 {
+		n = r.Pick(4090, 4095, 4096, 8192, r.Range(4000, 9000))
+	}
 	b := make([]byte, n)
 	for i := range b {
 		if r.Intn(3) == 0 {
@@ -143,7 +149,7 @@ func genLen(r *simrt.RNG) int {
 	case x < 70:
 		return r.Range(2, 120)
 	case x < 80:
-		return r.Range(4090, 4100)
+		return r.Pick(r.Range(4090, 4100), r.Range(4090, 4100), r.Range(8186, 8198), r.Range(12280, 12296), 16384, 16385)
 	case x < 88:
 		return r.Range(200, 3000)
 	case x < 95:
@@ -262,7 +268,7 @@ func genC01(r *simrt.RNG) *Case {
 	pl.Enc = int(enc)
 	if r.Bool() {
 		pl.Format = "fasta"
-		pl.Width = r.Pick(1, 2, 3, 60, 80, r.Range(1, 200), 4095, 4096, 4097, 100000)
+		pl.Width = r.Pick(1, 2, 3, 60, 80, r.Range(1, 200), 4094, 4095, 4096, 4097, 8191, 8192, 8193, 100000)
 		pl.Qual = r.Intn(4) == 0
 		pl.Recs = genSeqRecs(r, pl.Alpha, false, enc)
 	} else {
